@@ -209,6 +209,42 @@ def revision_chain(gen):
     return ops
 
 
+def wide_document_pattern(gen, pool):
+    """ignore options in force, a small diff, then a diff of two notebooks with hundreds of distinct metadata
+    paths (saved widget state: every model id is its own JSON path, so the per-path tables of the process grow by
+    hundreds of entries), then the small diff again - it must still answer like a fresh process"""
+    import copy
+    from ..gen_edit import mutate
+    from ..gen_nb import validate_nb
+    r = gen.rng
+    cfg = r.choice([{"op": "flags", "flags": r.choice([["-s"], ["-S"], ["-O"], ["-o", "-m"], ["-D"], ["-M", "-I"]])},
+                    {"op": "targets", "kw": {k: r.random() < 0.5 for k in ("sources", "outputs", "attachments", "metadata", "identifier", "details")}},
+                    {"op": "ignores", "mapping": {r.choice(["/cells/*/outputs", "/cells/*/source", "/cells/*/metadata"]): True}}])
+    a = r.choice(pool)
+    b, _ = mutate(a, gen, steps=3)
+    if validate_nb(b):
+        b = r.choice(pool)
+    small = {"op": "diff_notebooks", "A": a, "B": b}
+    wide_a = copy.deepcopy(r.choice(pool))
+    n = r.choice([60, 130, 130, 250])
+    state = {}
+    for i in range(n):
+        state["model%04d%s" % (i, gen.new_id()[:4])] = {"model_name": "IntSliderModel", "model_module": "@jupyter-widgets/controls",
+                                                        "state": {"description": "slider %d" % i, "layout": "IPY_MODEL_%d" % i, "style": {"handle_color": "red"}}}
+    wide_a["metadata"]["widgets"] = {"application/vnd.jupyter.widget-state+json": {"version_major": 2, "version_minor": 0, "state": state}}
+    wide_b = copy.deepcopy(wide_a)
+    st = wide_b["metadata"]["widgets"]["application/vnd.jupyter.widget-state+json"]["state"]
+    for k in r.sample(sorted(st), 5):
+        st[k]["state"]["description"] += " moved"
+    del st[r.choice(sorted(st))]
+    out = [cfg, small, {"op": "diff_notebooks", "A": wide_a, "B": wide_b}, copy.deepcopy(small)]
+    if r.random() < 0.5:
+        rm, _ = mutate(a, gen, steps=2)
+        if not validate_nb(rm):
+            out.append({"op": "merge_notebooks", "base": a, "local": b, "remote": rm, "config": {"merge": "inline", "input": None, "output": None, "ignore_transients": True}})
+    return out
+
+
 def make_history(gen, maxlen):
     from ..gen_edit import mutate
     from ..gen_nb import validate_nb
@@ -219,6 +255,8 @@ def make_history(gen, maxlen):
         return []
     n = r.randrange(5, maxlen + 1)
     ops = []
+    if r.random() < 0.25:
+        ops.extend(wide_document_pattern(gen, pool))
     chain = revision_chain(gen) if r.random() < 0.6 else []
     for _ in range(n):
         if chain and r.random() < 0.3:
